@@ -32,6 +32,7 @@ func init() {
 			{"C13/state", "state keys: 16 bytes of crypto/rand (checked), default expiry, store expiry constant <= 2 min", c13State},
 			{"C13/verifier-config", "oidc.Config sets ClientID from configuration and no Skip* option; verifier from provider.Verifier", c13VerifierConfig},
 			{"C13/store", "both session stores are built with both keys, behind len >= 32 guards", c13Store},
+			{"C13/default-keys", "the session keys substituted when none are configured are drawn symbol by symbol from crypto/rand (C18's generator rule)", func(c *Ctx) { c18CSPRNGAs(c, "C13/default-keys") }},
 			{"C13/mirror", "identity Marshal/Unmarshal copy the same fields both ways and cover every field", c13Mirror},
 		},
 	})
